@@ -42,6 +42,40 @@ Theorem C13_collateral_ok : forall P cpb addr explicit inputs pot at_addr colls 
 Proof. exact set_collateral_return_ok_concrete. Qed.
 Print Assumptions C13_collateral_ok.
 
+(* THE GATE (added when the check was strengthened).  sstate = the builder's script tables at the time of the call:
+   native_scripts, _inputs_to_scripts values, minting / withdrawal / certificate scripts, _reference_scripts; each
+   script = (hash, class).  purposes ss = the scripts of the spend/mint/withdrawal/certificate tables;
+   needs_collateral ss = the method does NOT take its first early return (model of all_scripts / scripts /
+   build_witness_set's classification / the four-way `not ... and not self._reference_scripts` test);
+   hash_fun = equal hashes have equal classes.
+   Completeness: a Plutus script executed for ANY purpose, however it was supplied (object, separate reference UTxO,
+   the spent UTxO's own script, a UTxO found at the script address), opens the gate. *)
+Theorem C13_gate_complete : forall ss s,
+  hash_fun (ss_native ss ++ purposes ss) -> In s (purposes ss) -> is_plutus s = true ->
+  needs_collateral ss = true.
+Proof. exact gate_complete. Qed.
+Print Assumptions C13_gate_complete.
+
+(* Soundness: the gate opens only for a reference script in use or a Plutus script in one of the tables *)
+Theorem C13_gate_sound : forall ss, needs_collateral ss = true ->
+  ss_refs ss <> [] \/ exists s, In s (ss_native ss ++ purposes ss) /\ is_plutus s = true.
+Proof. exact gate_sound. Qed.
+Print Assumptions C13_gate_sound.
+
+(* MAIN over the script tables (C13_collateral_ok with its `true` replaced by what the builder computes): *)
+Theorem C13_collateral_ok_scripts : forall P cpb addr ss s explicit inputs pot at_addr colls o fee,
+  hash_fun (ss_native ss ++ purposes ss) -> In s (purposes ss) -> is_plutus s = true ->
+  set_collateral_return_ss (min_lovelace_ret cpb addr) P ss true explicit inputs pot at_addr = (colls, o) ->
+  completed o ->
+  wfc (explicit ++ inputs ++ pot ++ at_addr) ->
+  nonneg (explicit ++ inputs ++ pot ++ at_addr) ->
+  Forall (fun c => (c_type c <= 8)%N) (explicit ++ inputs ++ pot ++ at_addr) ->
+  0 < collateral_amount P -> 0 <= p_percent P -> 0 <= cpb ->
+  fee <= p_max_fee P + p_fee_buffer P ->
+  collateral_ok (mkLP (p_percent P) (p_max_inputs P) cpb) fee colls (ret_of addr o) (total_of o) = true.
+Proof. exact set_collateral_return_ss_ok. Qed.
+Print Assumptions C13_collateral_ok_scripts.
+
 (* the same for an arbitrary min-lovelace function that dominates the ledger's min ADA of the emitted output *)
 Theorem C13_collateral_ok_any_minl : forall minl P cpb addr explicit inputs pot at_addr colls o fee,
   set_collateral_return minl P true true explicit inputs pot at_addr = (colls, o) ->
